@@ -2,8 +2,9 @@
    Statements only; every proof is `exact <lemma from Proofs/>`.
    [mk_screen rows arity ctrl tmap smap obs_given mask_given = Ok s] is "s can be constructed". *)
 From Coq Require Import ZArith List Bool.
-From Batchie Require Import Lib.Sexp Generated.Consts Model.Encode Model.Screen
-  Proofs.C01Encode Proofs.C01Screen Proofs.C01Props Generated.SrcArith.
+From Batchie Require Import Lib.Sexp Lib.PyRt Generated.Consts Model.Encode Model.Screen
+  Proofs.C01Encode Proofs.C01Screen Proofs.C01Props Generated.SrcArith
+  Generated.SrcEncode Generated.SrcScreenIds Proofs.C01Source Proofs.C01SourceInit.
 Import ListNotations.
 Open Scope Z_scope.
 
@@ -185,3 +186,118 @@ Proof. do 2 eexists. vm_compute. repeat split. Qed.
 Example C01_example_gap_rejected :
   mk_screen ex_rows 2 [] (Some ([(([97], 5), 0); (([98], 7), 2); (([], 7), -1); (([98], 0), -1)], true)) None true true = Err 3.
 Proof. vm_compute. reflexivity. Qed.
+
+(* ---- the model is the source: whole functions of batchie/data.py, re-translated from /repo on every run
+   (harness/py2gal.py, configurations C01_* of harness/src_functions.py, Generated/SrcEncode.v and SrcScreenIds.v).
+   Every numpy / pandas call is ONE primitive with a list meaning (end of Model/Encode.v, Model/Screen.v); the order and
+   wiring of the calls, the branches, the raises and the None handling are the translation's. ---- *)
+
+(* numpy_array_is_0_indexed_integers on an id array (integer dtype?, values) is [zero_indexed] *)
+Theorem C01_model_is_source_numpy_array_is_0_indexed_integers : forall (isint : bool) (ids : list Z),
+  src_numpy_array_is_0_indexed_integers (isint, ids) = Ok (zero_indexed isint ids).
+Proof. exact src_valid_ids_is_model. Qed.
+Print Assumptions C01_model_is_source_numpy_array_is_0_indexed_integers.
+
+(* encode_treatment_arrays_to_0_indexed_ids, for ALL arguments (arrays of different lengths: pandas' ValueError, tag 15):
+   it is [encode_treatments] on the zipped (name, dose) keys, returning the merged id column (no NaN: all Some) and the
+   mapping's three columns.  Hypothesis: a supplied mapping is key-unique (true of every mapping batchie builds; with a
+   repeated key pandas' merge would duplicate rows where the model takes the first match) *)
+Theorem C01_model_is_source_encode_treatment_arrays :
+  forall (names : list name) (doses : list Z) (ctrl : name) (existing : option tmap_py),
+  match existing with Some t => NoDup (map fst (tmap_py_rows t)) | None => True end ->
+  src_encode_treatment_arrays names doses ctrl existing
+  = if negb (Nat.eqb (length names) (length doses)) then Err 15
+    else if match existing with Some t => negb (tmap_py_aligned t) | None => false end then Err 15
+    else dor r <- encode_treatments (combine names doses) ctrl (option_map tmap_py_rows existing);
+         Ok (map Some (fst r), map (fun e => fst (fst e)) (snd r), map (fun e => snd (fst e)) (snd r), map snd (snd r)).
+Proof. exact src_encode_treatments_is_model. Qed.
+Print Assumptions C01_model_is_source_encode_treatment_arrays.
+
+(* the `else` branch of that function, statement by statement (drop_duplicates, sort_values, reset_index, the two control
+   tests, `|`, cumsum, index - cumsum, the sentinel override by label, the two `del`s) builds exactly [build_tmapping] *)
+Theorem C01_model_is_source_assign : forall (ctrl : name) (keys : list tkey),
+  map snd (src_built_frame ctrl (df_fresh keys)) = build_tmapping ctrl keys.
+Proof. exact src_built_frame_rows. Qed.
+Print Assumptions C01_model_is_source_assign.
+
+(* the round-1 constant src_dose_is_control (Generated/SrcArith.v) is the comparison the translation applies to the
+   dose column: redundant now, and consistent *)
+Theorem C01_model_is_source_dose_test_consistent : forall doses : list Z,
+  series_le0 doses = map src_dose_is_control doses.
+Proof. exact src_dose_is_control_consistent. Qed.
+Print Assumptions C01_model_is_source_dose_test_consistent.
+
+(* encode_1d_array_to_0_indexed_ids, for all arguments, is [encode_names] (same hypothesis) *)
+Theorem C01_model_is_source_encode_1d_array : forall (names : list name) (existing : option smap_py),
+  match existing with Some t => NoDup (map fst (smap_py_rows t)) | None => True end ->
+  src_encode_1d_array names existing
+  = if match existing with Some t => negb (smap_py_aligned t) | None => false end then Err 15
+    else dor r <- encode_names names (option_map smap_py_rows existing) 6;
+         Ok (map Some (fst r), map fst (snd r), map snd (snd r)).
+Proof. exact src_encode_1d_is_model. Qed.
+Print Assumptions C01_model_is_source_encode_1d_array.
+
+(* Screen.__init__, first statement: the attribute the id statements read is the parameter *)
+Theorem C01_model_is_source_init_control_name : forall c : name, src_init_control_name c = Ok c.
+Proof. exact src_init_control_name_is_param. Qed.
+Print Assumptions C01_model_is_source_init_control_name.
+
+(* Screen.__init__, the id-encoding statements (column-major flatten of both 2-d arrays for any arity, validation of the
+   supplied mappings, the three encoder calls with the existing_mapping each receives, split / vstack / T, the stores):
+   on the arrays of a constructor call they ARE the id part of [mk_screen], read back by [stored_ids].
+   Hypotheses: arity > 0 (for shape[1] = 0 numpy's concatenate raises where the model builds an empty screen - the
+   model is more permissive there; the harness generates arity 1-3), supplied mappings key-unique *)
+Theorem C01_model_is_source_init_ids : forall rows a c tm sm,
+  (0 < a)%nat ->
+  match tm with Some (m, _) => NoDup (map fst m) | None => True end ->
+  match sm with Some (m, _) => NoDup (map fst m) | None => True end ->
+  (dor s <- mk_screen rows a c tm sm true true; Ok (stored_ids s))
+  = if negb (forallb (fun r => Nat.eqb (length (r_treats r)) a) rows) then Err 1
+    else if negb (plate_uniform rows) then Err 2
+    else src_init_ids (names_arr a rows) (doses_arr a rows) (map r_sample rows) (map r_plate rows)
+                      (tmap_arg_py tm) (smap_arg_py sm) c.
+Proof. exact src_init_ids_is_model. Qed.
+Print Assumptions C01_model_is_source_init_ids.
+
+(* the whole constructor model, whatever the call passes: refuse ragged rows; the two translated observation-mask runs
+   (the C12_model_is_source_init theorems); then the translated id run on the rows they leave *)
+Theorem C01_model_is_source_init : forall rows a c tm sm og mg,
+  (0 < a)%nat ->
+  match tm with Some (m, _) => NoDup (map fst m) | None => True end ->
+  match sm with Some (m, _) => NoDup (map fst m) | None => True end ->
+  (dor s <- mk_screen rows a c tm sm og mg; Ok (stored_ids s))
+  = if negb (forallb (fun r => Nat.eqb (length (r_treats r)) a) rows) then Err 1
+    else dor rows' <- C12Source.src_mask_rules rows og mg;
+         src_init_ids (names_arr a rows') (doses_arr a rows') (map r_sample rows') (map r_plate rows')
+                      (tmap_arg_py tm) (smap_arg_py sm) c.
+Proof. exact mk_screen_is_source_runs. Qed.
+Print Assumptions C01_model_is_source_init.
+
+(* ExperimentSpace.n_unique_samples / n_unique_treatments (the sizes every id is bounded by), on the mapping tuples a
+   constructed screen stores and from_screen hands over *)
+Theorem C01_model_is_source_n_unique_samples : forall s : screen,
+  src_space_n_unique_samples (nmap_cols2 (s_smap s)) = Ok (space_n_samples s).
+Proof. exact src_space_n_samples_is_model. Qed.
+Print Assumptions C01_model_is_source_n_unique_samples.
+
+Theorem C01_model_is_source_n_unique_treatments : forall s : screen,
+  src_space_n_unique_treatments (tmap_cols3 (s_tmap s)) = Ok (space_n_treatments s).
+Proof. exact src_space_n_treatments_is_model. Qed.
+Print Assumptions C01_model_is_source_n_unique_treatments.
+
+(* non-vacuity of the links: the translated functions run on the example above *)
+Example C01_example_source_valid_ids :
+  src_numpy_array_is_0_indexed_integers (true, [1; -1; 0; 1]) = Ok true /\
+  src_numpy_array_is_0_indexed_integers (true, [2; -1; 0]) = Ok false /\
+  src_numpy_array_is_0_indexed_integers (false, [0; 1]) = Ok false.
+Proof. vm_compute. repeat split. Qed.
+
+Example C01_example_source_encode :
+  src_encode_treatment_arrays [[97]; [98]; []; [98]; [97]] [5; 7; 7; 0; 5] [] None
+  = Ok ([Some 0; Some 1; Some (-1); Some (-1); Some 0], [[]; [97]; [98]; [98]], [7; 5; 0; 7], [-1; 0; -1; 1]).
+Proof. vm_compute. reflexivity. Qed.
+
+Example C01_example_source_init :
+  exists ids, src_init_ids (names_arr 2 ex_rows) (doses_arr 2 ex_rows) (map r_sample ex_rows) (map r_plate ex_rows) None None []
+              = Ok ids /\ snd (fst (fst (fst (fst ids)))) = (2%nat, [[Some 0; Some 1]; [Some 0; Some (-1)]; [Some (-1); Some 1]]).
+Proof. eexists. vm_compute. split; reflexivity. Qed.
